@@ -74,7 +74,7 @@ def VerbSeg : BState → List Tok → Prop := fun s seg => ∀ t ∈ seg, VerbTo
 
 theorem verbTok_frame {s s' : BState} (hf : s.FrameEq s') (t : Tok) (h : VerbTok s t) : VerbTok s' t := by
   unfold VerbTok cutOf lineChars at *
-  rw [hf.1, hf.2.2.1]; exact h
+  rw [hf.1.1, hf.2.2.1]; exact h
 
 theorem verbSeg_closed : FrameClosedS VerbSeg := fun _ _ _ hf h t ht => verbTok_frame hf t (h t ht)
 
